@@ -109,6 +109,9 @@ impl<H: HashChain> HssPrivateKey<H> {
         let aux_len = hss_get_aux_data_len(aux_data.len(), *top_lms_parameter);
         let moved = core::mem::take(aux_data);
         *aux_data = &mut moved[..aux_len];
+        // The buffer is marked as not in use: whatever it contains is not authenticated and must
+        // never be read back as cached tree nodes
+        aux_data.fill(0);
 
         let aux_level = hss_optimal_aux_level(aux_len, *top_lms_parameter, None);
         hss_store_aux_marker(aux_data, aux_level);
